@@ -8,10 +8,10 @@ export GOFLAGS=-mod=mod GOPROXY=off GOSUMDB=off GOTOOLCHAIN=local
 wt="$1"; sd="$2"; pkg="$3"; demo="$4"; re="$5"; tests="$6"; shift 7
 cd "$wt" && git checkout -q -- . && git clean -fdq
 cp "$sd/$demo" "$wt/$pkg/"
-(cd "$wt" && go test -vet=off -count=1 -timeout 10m -run "$re" "./$pkg/" > /tmp/try.$$.a 2>&1); a=$?
+(cd "$wt" && go test ${TAGS:+-tags $TAGS} -vet=off -count=1 -timeout 10m -run "$re" "./$pkg/" > /tmp/try.$$.a 2>&1); a=$?
 git -C "$wt" apply "$sd/patch.diff" || { echo "patch does not apply"; exit 2; }
 (cd "$wt" && go build ./... ) || { echo "does not build"; exit 2; }
-(cd "$wt" && go test -vet=off -count=1 -timeout 10m -run "$re" "./$pkg/" > /tmp/try.$$.b 2>&1); b=$?
+(cd "$wt" && go test ${TAGS:+-tags $TAGS} -vet=off -count=1 -timeout 10m -run "$re" "./$pkg/" > /tmp/try.$$.b 2>&1); b=$?
 rm -f "$wt/$pkg/$demo"
 (cd "$wt" && go test -vet=off -count=1 -timeout 20m $tests > /tmp/try.$$.c 2>&1); c=$?
 echo "$sd: demo without change exit $a, with change exit $b; existing tests ($tests) with change exit $c"
